@@ -6,8 +6,20 @@ from gen.c02 import Prop as C02
 class Prop(C02):
     pid = 'C06'
     props_file = 'Props/C06.v'
-    required_theorems = []
+    required_theorems = ['dest_ids_unique', 'change_carries_current_list', 'skip_flags_sound', 'silent_prefix_unchanged',
+                         'fold_all_changes_eq_locrib', 'best_only_consumer_correct', 'addpath_consumer_correct',
+                         'end_deferral_emits_all', 'quiet_while_deferring', 'addpath_window_eq_limited',
+                         'replaced_path_id_sound', 'lpids_unique', 'delta_exporter_sound', 'alloc_lowest_free']
     extra_targets = ['Model/Rib.vo']
+    correspondence_name = 'Model/Rib.v step (notifications and Loc-RIB) vs rustybgp_table::Table (harness/hx-rib)'
+    trusted_base = C02.trusted_base + [
+        'consumers are functions from prefix to the last path list they looked at (full / best-only / add-path window n); the daemon\'s own consumers '
+        '(PendingTx and the export maps keyed by dest_id) belong to property C01',
+        'the order of the notifications inside the vector returned by drop*/restale*/update_nexthop_validity follows hash-map iteration and is not modelled; '
+        'theorem change_carries_current_list shows every notification of one operation for one prefix carries the same final list, so folding is order-independent',
+        'dest_ids_unique assumes the allocator\'s own debug_assert (fewer than 2^24 destinations per shard) along the history; shard index < 256 is not needed in the '
+        'model because ids are unbounded naturals there (the u32 shift of a shard index >= 256 would wrap in release builds)']
+    assumptions = ['a Source object (allocation token) always denotes the same remote address (consistent histories)']
     rule = ('histories over 3 prefixes, 3 peers (each with a restarted session), path ids 0-2, with insert/replace/remove/drop/stale mark and purge/'
             'LLGR mark and purges/NO_LLGR purge/next-hop flips/start-end deferral; non-trivial = at least one change with best_changed=false or '
             'any_changed=false was emitted; distinct = distinct sequence of (prefix, flags, path list) changes')
@@ -16,7 +28,13 @@ class Prop(C02):
         n = 700 if tier == 'quick' else 7000
         cases = []
         for k in range(n):
-            cases.append(R.gen_history(rng, rng.randint(5, 40), evpn=(k % 9 == 8), deferral=(k % 3 == 0), limits=(k % 4 == 1)))
+            if k % 6 == 3:
+                # deferral-heavy histories: a start-up deferral during which paths come, go, lose their next hop
+                # and are replaced by filtered ones, ended (and sometimes ended again) by end_deferral
+                w = dict(ins=10, rem=3, drop=1, dropk=1, restale=1, nhv=4, reconnect=0, deferral=3)
+                cases.append(R.gen_history(rng, rng.randint(5, 40), weights=w, deferral=True))
+            else:
+                cases.append(R.gen_history(rng, rng.randint(5, 40), evpn=(k % 9 == 8), deferral=(k % 3 == 0), limits=(k % 4 == 1)))
         return cases
 
     def corpus_cases(self):
